@@ -338,6 +338,21 @@ def check(model, rep, tier):
     rep.check(ok, 'TREE-CTX', '%s:%s:children-load' % (TPL, hname),
               'the object of an attribute / subscript is always read (Load)',
               line=h.node.lineno if h else None)
+  # which kinds force their children to Load: only those whose children are read
+  # whatever the node's own context (the object of an attribute / subscript);
+  # a starred element, a tuple or a list hands its own context on
+  forcing = sorted(nm[len('visit_'):] for nm, m_ in ca.methods.items()
+                   if nm.startswith('visit_') and any(
+                       isinstance(a_, ast.Assign) and core.norm(a_.targets[0]) == OV and
+                       core.norm(a_.value) in ('ast.Load', 'ast.Store', 'ast.Del')
+                       for a_ in ast.walk(m_.node)))
+  rep.check(set(forcing) <= {'Attribute', 'Subscript'}, 'TREE-CTX',
+            '%s:ContextAdjuster:children-forced-to-load' % TPL,
+            'only Attribute and Subscript read their children regardless of their own '
+            'context; a Starred / Tuple / List target passes its context on to its '
+            'elements: forcing Load there turns a starred assignment target into a read',
+            {'forcing_kinds': forcing}, line=ca.node.lineno,
+            witness='for head, *tail in rows:  ->  (head, *ag__.ld(tail)) = itr')
   # expression kinds that hold a binding target while being evaluated themselves:
   # the override (Load, from the placeholder position) must not reach the target
   for kind, fld in (('NamedExpr', 'target'), ('comprehension', 'target')):
